@@ -43,7 +43,7 @@ class Q:
         return "Q(%r, %r)" % (self.value, self.units)
 
 
-SHAPES = ("d.dd", "sd.d0", "d.", ".dd", "dEd", "sd.dde-d", "d.d00")
+SHAPES = ("d.dd", "sd.d0", "d.", ".dd", "d.d0E+4dd", "dEd", "sd.dde-d", "d.d00", "sd.dE-9dd")
 
 
 def make_classes(L):
@@ -234,7 +234,7 @@ def erased_equal(L, v, v0):
 
 def obligations(tier):
     obs = []
-    shapes = SHAPES[:4] if tier == "quick" else SHAPES
+    shapes = SHAPES[:5] if tier == "quick" else SHAPES
     for d in ("PVL", "ODL", "PDS3", "Omni"):
         for w in ("top", "seq", "set", "nested", "quantity", "seqquantity", "blocks", "seqwhole", "setwhole", "seqboth"):
             if w in ("seqwhole", "setwhole", "seqboth") and d in ("ODL", "PDS3"):
